@@ -76,6 +76,45 @@ def parseU64 (s : Bytes) : Option Nat :=
   | 43 :: r => parseUnsigned r
   | _ => parseUnsigned s
 
+/-! ## `api/src/types.rs`: the hand-written reader of `OutputPrintable` and its helper decoders -/
+
+/-- which keys the JSON object had: `output_type, commit, spent, proof, proof_hash, block_height,
+merkle_proof, mmr_index` (values already read without error, no key twice: `no_dup!`) -/
+structure OpKeys where
+  outputType : Bool
+  commit : Bool
+  spent : Bool
+  proof : Bool
+  proofHash : Bool
+  blockHeight : Bool
+  merkleProof : Bool
+  mmrIndex : Bool
+deriving DecidableEq, Repr
+
+inductive Fin3 | ok | err | panic
+deriving DecidableEq, Repr
+
+/-- the end of `OutputPrintableVisitor::visit_map`: the `is_none()` test names output_type, commit,
+spent, proof_hash and mmr_index - NOT block_height - and then EVERY one of the six is unwrapped -/
+def outputPrintableFinish (k : OpKeys) : Fin3 :=
+  if !k.outputType || !k.commit || !k.spent || !k.proofHash || !k.mmrIndex then .err
+  else if !k.blockHeight then .panic
+  else .ok
+
+/-- `OutputPrintable::range_proof()`: no proof string -> error; not hex -> error; then
+`p_bytes.clone_from_slice(&p_vec[..MAX_PROOF_SIZE])` - the slice PANICS when fewer than 675 bytes
+were decoded; more than 675 are cut off -/
+def rangeProofHelper (proof : Option Bytes) : FieldRes :=
+  match proof with
+  | none => .err
+  | some s => ofHex s fun b => if b.length < MAX_PROOF then .panic else .ok (b.take MAX_PROOF)
+
+/-- the commitment / hash id parsers of the handlers (`get_output`, `get_header`, `get_block`, `get_kernel`):
+`util::from_hex` then `Commitment::from_vec` / `Hash::from_vec` (copy `min(len, N)` bytes) -/
+def hashIdFromHex (s : Bytes) : FieldRes := ofHex s fun b => .ok (padTo 32 b)
+/-- `get_kernel`: exactly 33 bytes or `invalid excess length` -/
+def excessIdFromHex (s : Bytes) : FieldRes := ofHex s fun b => if b.length ≠ 33 then .err else .ok (padTo 33 b)
+
 /-- `Display for u64` -/
 def printDec (n : Nat) : Bytes := (Nat.toDigits 10 n).map Char.toNat
 
